@@ -14,14 +14,14 @@ pub fn prop() -> Prop {
     Prop {
         id: "C17",
         level: "exploration",
-        rule: "case = one input family for one of the 12 hasher instances: {x, x||0^k}, {x, prefixes of x}, lengths straddling multiples of 7 and 7*rate (hash); {e, e||0^k} around multiples of the rate, [] vs [0] (hash_elements); L vs L||default^k vs prefixes of L (merge_many); (s, x + j*p) for every j with x + j*p < 2^64 (merge_with_int). Oracle: digests pairwise distinct within the family. Non-trivial = the family has >= 2 members whose padded block sequences have the same number of blocks (the dangerous case); distinct = hash of (hasher, family kind, members).",
+        rule: "case = one input family for one of the 12 hasher instances: {x, x||0^k}, {x, prefixes of x}, lengths straddling multiples of 7 and 7*rate (hash); {e, e||0^k} around multiples of the rate, [] vs [0], and the same coordinate sequences presented as quadratic / cubic extension elements (hash_elements); L vs L||default^k vs prefixes of L (merge_many); (s, x + j*p) for every j with x + j*p < 2^64 (merge_with_int). Oracle: digests pairwise distinct within the family. Non-trivial = the family has >= 2 members whose padded block sequences have the same number of blocks (the dangerous case); distinct = hash of (hasher, family kind, members).",
         assumptions: vec![
             "only inputs that differ as inputs to the same entry point are compared (merge = hash_elements on the same elements is by design for the sponge variants)",
             "a digest equality between different inputs is attributed to the padding rule: a genuine collision has probability < 2^-90",
             "a panic of a hasher on some member of a family is reported as a violation too (no digest, hence no separation)",
         ],
         subs: vec![Sub::gen("families", families, 96, 300_000, 10_000_000)],
-        required: vec!["family:zero_extension", "family:prefix", "family:elements_zero_extension", "family:merge_many_split", "family:int_congruent", "same_block_count", "hasher:Rp64_256", "hasher:RpJive64_256", "hasher:Rp62_248", "hasher:Blake3_256<f64>", "hasher:Sha3_256<f128>", "hasher:Blake3_192<f62>"],
+        required: vec!["family:zero_extension", "family:prefix", "family:elements_zero_extension", "elements_given_as_extension_elements", "family:merge_many_split", "family:int_congruent", "same_block_count", "hasher:Rp64_256", "hasher:RpJive64_256", "hasher:Rp62_248", "hasher:Blake3_256<f64>", "hasher:Sha3_256<f128>", "hasher:Blake3_192<f62>"],
         required_thorough: vec![],
     }
 }
@@ -111,13 +111,31 @@ fn run<X: HS>(s: &mut Src, rec: &mut Rec) -> CaseResult {
             for _ in 0..4 {
                 ks.push(s.range(1, 2 * rate as u64 + 1) as usize);
             }
+            // the same sequence doubled / tripled in length by zeros: as extension elements it has as
+            // many ELEMENTS as the original has base elements (a length taken from the wrong type collides)
+            if n >= 1 {
+                ks.push(n);
+                ks.push(2 * n);
+            }
             ks.sort();
             ks.dedup();
             for k in ks {
                 let mut e = elems.clone();
                 e.extend(std::iter::repeat(<X::S as Spec>::from_int(0)).take(k));
                 let blocks = e.len().div_ceil(rate);
-                members.push((format!("hash_elements({} elements, last {k} zero)", e.len()), catch(|| X::to_ref(&<X::H as ElementHasher>::hash_elements(&e))), blocks));
+                // the member is presented as base elements, or (same coordinate sequence) as quadratic / cubic elements
+                let as_ext = s.below(3);
+                if as_ext == 1 && !e.is_empty() && e.len() % 2 == 0 {
+                    rec.class("elements_given_as_extension_elements");
+                    let q: Vec<Q<<X::S as Spec>::B>> = e.chunks(2).map(|c| Q::<<X::S as Spec>::B>::new(c[0], c[1])).collect();
+                    members.push((format!("hash_elements({} quadratic elements = {} coordinates, last {k} zero)", q.len(), e.len()), catch(|| X::to_ref(&<X::H as ElementHasher>::hash_elements(&q))), blocks));
+                } else if as_ext == 2 && !e.is_empty() && e.len() % 3 == 0 && <X::S as Spec>::CUBE.is_some() {
+                    rec.class("elements_given_as_extension_elements");
+                    let c3: Vec<C<<X::S as Spec>::B>> = e.chunks(3).map(|c| C::<<X::S as Spec>::B>::new(c[0], c[1], c[2])).collect();
+                    members.push((format!("hash_elements({} cubic elements = {} coordinates, last {k} zero)", c3.len(), e.len()), catch(|| X::to_ref(&<X::H as ElementHasher>::hash_elements(&c3))), blocks));
+                } else {
+                    members.push((format!("hash_elements({} elements, last {k} zero)", e.len()), catch(|| X::to_ref(&<X::H as ElementHasher>::hash_elements(&e))), blocks));
+                }
             }
         },
         3 => {
